@@ -5,13 +5,13 @@ package commitlog
 // own words), and records every observation for the comparison with the Coq model.
 
 import (
-	"strings"
 	"bytes"
 	"context"
 	"fmt"
 	"os"
 	"path/filepath"
 	"sort"
+	"strings"
 	"testing"
 	"time"
 
@@ -45,6 +45,7 @@ type vLogCase struct {
 	stats   map[string]int
 	readers []*vLiveReader
 	hook    *vHookLogger
+	tag     string // appended to violation signatures (C05: the crash point the log was recovered from)
 }
 
 // vLiveReader is a Reader kept across operations.
@@ -67,7 +68,7 @@ func (c *vLogCase) open() {
 
 func (c *vLogCase) violation(sig, what string) {
 	c.viol = true
-	c.out.emit(vM{"k": "violation", "sig": sig, "what": what, "case": c.caseJSON()})
+	c.out.emit(vM{"k": "violation", "sig": sig + c.tag, "what": what, "case": c.caseJSON()})
 }
 
 func (c *vLogCase) caseJSON() vM {
@@ -531,9 +532,13 @@ func vNewLogCase(out *vOut, id int, profile string, opts Options, stats map[stri
 	opts.CleanerInterval = time.Hour
 	opts.HWCheckpointInterval = time.Hour
 	c := &vLogCase{id: id, profile: profile, dir: dir, opts: opts, out: out, nextTs: 1000, epoch: 1, stats: stats}
-	c.open()
+	if !vNoOpen {
+		c.open()
+	}
 	return c
 }
+
+var vNoOpen bool // the C05 driver opens the log itself (the first open passes crash points too)
 
 func (c *vLogCase) finish() {
 	if c.l != nil {
